@@ -238,6 +238,23 @@ Theorem C20_constructors : forall r, ctor_ok r = true ->
 Proof. exact ctor_ok_wf. Qed.
 Print Assumptions C20_constructors.
 
+(* the statement WITHOUT the acyclicity hypothesis – "for every well-formed definition some
+   fuel is enough" (= the code terminates) – is false: D39 *)
+Definition C20_terminates_for_every_definition : Prop :=
+  forall Df, def_wf Df -> mem K_root (d_rels Df) = true ->
+    exists fuel, forall fuel' s, (fuel <= fuel')%nat ->
+      make_tree Df fuel' K_root [] s = make_tree Df fuel K_root [] s.
+Theorem C20_terminates_for_every_definition_refuted : ~ C20_terminates_for_every_definition.
+Proof.
+  intros H. destruct (H Dcyc) as [fuel Hf].
+  - split; repeat constructor.
+  - reflexivity.
+  - pose proof (Hf (S fuel) [] (Nat.le_succ_diag_r fuel)) as E.
+    pose proof (cyclic_unbounded (S fuel) []) as H1. pose proof (cyclic_unbounded fuel []) as H2.
+    rewrite E in H1. rewrite H1 in H2. exact (Nat.neq_succ_diag_l _ H2).
+Qed.
+Print Assumptions C20_terminates_for_every_definition_refuted.
+
 (* the decidable domain checks evaluated by the correspondence on every case imply
    the hypotheses of C20_conforms *)
 Theorem C20_domain_checks : forall Df fuel rk, in_domain Df fuel rk = true ->
